@@ -45,6 +45,12 @@ Shapes ==
   \cup { <<"xbin", k>>  : k \in {"b64", "num"} }          \* {"$binary": {base64: x, subType: "04"}}
   \cup { <<"eo", "null">>, <<"ea", "null">> }             \* {}  []
 
+\* C07: extended-JSON wrappers holding the wrong kind of value (any scalar, an array, a document), and $binary holding a
+\* scalar or an array instead of a document.  Only generated when TWShapeKinds names them.
+WrapShapes ==
+     { <<"xdateS", k>> : k \in ScalarKinds } \cup { <<"xoidS", k>> : k \in ScalarKinds } \cup { <<"xbinB", k>> : k \in ScalarKinds }
+  \cup { <<w, k>> : w \in {"xdateA", "xdateO", "xoidA", "xoidO", "xbinA", "xbinO", "xbinS", "xbinSA"}, k \in {"plain", "num", "null"} }
+
 UF  == "uf1"
 UF2 == "uf2"
 L(k) == Leaf(k, "any")
@@ -63,6 +69,17 @@ ShapeTree(sh) ==
     [] sh[1] = "xdate" -> Obj(<< <<"$date", L(k)>> >>)
     [] sh[1] = "xoid"  -> Obj(<< <<"$oid", L(k)>> >>)
     [] sh[1] = "xbin"  -> Obj(<< <<"$binary", Obj(<< <<"base64", L(k)>>, <<"subType", Str("plain", "free")>> >>)>> >>)
+    [] sh[1] = "xdateS" -> Obj(<< <<"$date", L(k)>> >>)
+    [] sh[1] = "xoidS"  -> Obj(<< <<"$oid", L(k)>> >>)
+    [] sh[1] = "xbinB"  -> Obj(<< <<"$binary", Obj(<< <<"base64", L(k)>>, <<"subType", Str("plain", "free")>> >>)>> >>)
+    [] sh[1] = "xdateA" -> Obj(<< <<"$date", Arr(<<L(k)>>)>> >>)
+    [] sh[1] = "xdateO" -> Obj(<< <<"$date", Obj(<< <<UF, L(k)>> >>)>> >>)
+    [] sh[1] = "xoidA"  -> Obj(<< <<"$oid", Arr(<<L(k)>>)>> >>)
+    [] sh[1] = "xoidO"  -> Obj(<< <<"$oid", Obj(<< <<UF, L(k)>> >>)>> >>)
+    [] sh[1] = "xbinA"  -> Obj(<< <<"$binary", Obj(<< <<"base64", Arr(<<L(k)>>)>>, <<"subType", Str("plain", "free")>> >>)>> >>)
+    [] sh[1] = "xbinO"  -> Obj(<< <<"$binary", Obj(<< <<"base64", Obj(<< <<UF, L(k)>> >>)>>, <<"subType", L(k)>> >>)>> >>)
+    [] sh[1] = "xbinS"  -> Obj(<< <<"$binary", L(k)>> >>)
+    [] sh[1] = "xbinSA" -> Obj(<< <<"$binary", Arr(<<L(k), L("plain")>>)>> >>)
     [] sh[1] = "eo"   -> Obj(<< >>)
     [] sh[1] = "ea"   -> Arr(<< >>)
 
@@ -105,7 +122,7 @@ CaseLine ==
 
 TableNames == IF TWTables = {} THEN DOMAIN Tables ELSE TWTables
 
-ShapeSet == IF TWShapeKinds = {} THEN Shapes ELSE { sh \in Shapes : sh[1] \in TWShapeKinds }
+ShapeSet == IF TWShapeKinds = {} THEN Shapes ELSE { sh \in Shapes \cup WrapShapes : sh[1] \in TWShapeKinds }
 
 Init == /\ table \in TableNames
         /\ ctx \in Contexts[table]
